@@ -27,6 +27,7 @@ ASSUMPTIONS = [
     "a module with no outputs needs no handler",
 ]
 MIN_NONTRIVIAL_FRACTION = 0.3
+RULE += " Added after the seeded rounds: " + 'Wires are generated against a random topological order (producers declared after consumers, parallel wires from one producer); a second execution of the same diagram must equal the first.'
 EXHAUSTIVE_NOTE = {"quick": "connect() over all 21 x 21 port-type pairs (441), complete", "thorough": "connect() over all 21 x 21 port-type pairs (441), complete"}
 
 DT = ["TEXT", "JSON", "IMAGE", "TOOL_CALL", "ERROR", "STOP", "APPROVAL"]
